@@ -40,11 +40,13 @@ def drive(ctx):
                 isdt = v["k"] == "dt"
                 for wd in (-1, 0, 1, 2, 3, 4, 5, 6):
                     n += 1
-                    ctx.emit("next", {"wd": wd, "keep": isdt and n % 2 == 0}, [v])
-                    ctx.emit("previous", {"wd": wd, "keep": isdt and n % 3 == 0}, [v])
+                    # navigation must not depend on the process-wide week configuration: every fifth call runs under one
+                    wc = {"wcfg": {"ws": n % 7, "we": (n + 6) % 7}} if n % 5 == 0 else {}
+                    ctx.emit("next", dict({"wd": wd, "keep": isdt and n % 2 == 0}, **wc), [v])
+                    ctx.emit("previous", dict({"wd": wd, "keep": isdt and n % 3 == 0}, **wc), [v])
                     for unit in UNITS3:
-                        ctx.emit("first_of", {"unit": unit, "wd": wd}, [v])
-                        ctx.emit("last_of", {"unit": unit, "wd": wd}, [v])
+                        ctx.emit("first_of", dict({"unit": unit, "wd": wd}, **wc), [v])
+                        ctx.emit("last_of", dict({"unit": unit, "wd": wd}, **wc), [v])
                         if wd == -1:
                             continue
                         top = {"month": 6, "quarter": 15, "year": 54}[unit]
@@ -53,7 +55,7 @@ def drive(ctx):
                             ns = sorted(set([1, 2, top, top - 1] + pick(rnd, ns, 2) + ({"month": [4, 5], "quarter": [13, 14],
                                                                                          "year": [52, 53]}[unit])))
                         for k in ns:
-                            ctx.emit("nth_of", {"unit": unit, "n": k, "wd": wd}, [v])
+                            ctx.emit("nth_of", dict({"unit": unit, "n": k, "wd": wd}, **wc), [v])
     # zones: days whose midnight is skipped or repeated, both folds
     full = ctx.backend == "rs" or not q
     for zn in ctx.mine(real_zone_names(ctx)) + ctx.mine(synth_zone_names(ctx)):
